@@ -978,6 +978,10 @@ class Evaluator:
             tv = self.truth(v)
             if tv is not None:
                 return cav(not tv).replace(deps=v.deps)
+            m = v.meta
+            if m is not None and isinstance(m, tuple) and m and m[0] == 'cmp0':
+                # not (x == 0), elementwise: keep which value is compared with zero (np.where(x != 0, x, eps))
+                return AV(deps=v.deps, shape=v.shape, dtype='bool', meta=('not_cmp0', m[1]))
             return AV(kind=frozenset(['bool']), deps=v.deps)
         if v.const is not TOP and v.const:
             try:
